@@ -379,6 +379,11 @@ impl Vm {
 
     let class = self.value_class(receiver);
     match self.inline_cache().get_invoke_cache(inline_slot, class) {
+      #[cfg(feature = "verif")]
+      Some(method) if {
+        self.verif_probe("inv", inline_slot, class, &method_name, true, -1, Some(method));
+        false
+      } => ExecutionSignal::Ok,
       Some(method) => self.resolve_call(method, arg_count),
       None => {
         if_let_obj!(ObjectKind::Instance(instance) = (receiver) {
@@ -391,6 +396,8 @@ impl Vm {
 
         match class.get_method(&method_name) {
           Some(method) => {
+            #[cfg(feature = "verif")]
+            self.verif_probe("inv", inline_slot, class, &method_name, false, -1, Some(method));
             self
               .inline_cache_mut()
               .set_invoke_cache(inline_slot, class, method);
@@ -440,9 +447,16 @@ impl Vm {
       .inline_cache()
       .get_invoke_cache(inline_slot, super_class)
     {
+      #[cfg(feature = "verif")]
+      Some(method) if {
+        self.verif_probe("sup", inline_slot, super_class, &method_name, true, -1, Some(method));
+        false
+      } => ExecutionSignal::Ok,
       Some(method) => self.resolve_call(method, arg_count),
       None => match super_class.get_method(&method_name) {
         Some(method) => {
+          #[cfg(feature = "verif")]
+          self.verif_probe("sup", inline_slot, super_class, &method_name, false, -1, Some(method));
           self
             .inline_cache_mut()
             .set_invoke_cache(inline_slot, super_class, method);
@@ -466,6 +480,8 @@ impl Vm {
     let name = self.read_string(slot);
 
     let class = val!(self.manage_obj(Class::bare(name)));
+    #[cfg(feature = "verif")]
+    self.verif_class_event("class", class.to_obj().to_class(), None, &name, -1, None);
     self.fiber.push(class);
     ExecutionSignal::Ok
   }}
@@ -500,6 +516,16 @@ impl Vm {
 
     sub_class.inherit(&hooks, super_class);
     sub_class.meta_from_super(&hooks);
+    #[cfg(feature = "verif")]
+    {
+      self.verif_class_event("inherit", sub_class, Some(super_class), "", -1, None);
+      for (field, index) in sub_class.verif_fields() {
+        self.verif_class_event("field", sub_class, None, &field, index as i64, None);
+      }
+      for (method, value) in sub_class.verif_methods() {
+        self.verif_class_event("method", sub_class, None, &method, -1, Some(value));
+      }
+    }
 
     ExecutionSignal::Ok
   }}
@@ -754,6 +780,8 @@ impl Vm {
 
       match self.inline_cache().get_property_cache(inline_slot, class) {
         Some(property_slot) => {
+          #[cfg(feature = "verif")]
+          self.verif_probe("set", inline_slot, class, &name, true, property_slot as i64, None);
           let value = self.fiber.pop();
 
           self.fiber.drop();
@@ -771,6 +799,8 @@ impl Vm {
 
           return match property_slot {
             Some(property_slot) => {
+              #[cfg(feature = "verif")]
+              self.verif_probe("set", inline_slot, class, &name, false, property_slot as i64, None);
               let cache = self.inline_cache_mut();
               cache.set_property_cache(inline_slot, class, property_slot as usize);
               instance[property_slot as usize] = value;
@@ -879,11 +909,15 @@ impl Vm {
       let class = instance.class();
       match self.inline_cache().get_property_cache(inline_slot, class) {
         Some(property_slot) => {
+          #[cfg(feature = "verif")]
+          self.verif_probe("get", inline_slot, class, &name, true, property_slot as i64, None);
           self.fiber.peek_set(0, instance[property_slot]);
           return ExecutionSignal::Ok;
         },
         None => {
           if let Some(property_slot) = class.get_field_index(&name) {
+            #[cfg(feature = "verif")]
+            self.verif_probe("get", inline_slot, class, &name, false, property_slot as i64, None);
             self
               .inline_cache_mut()
               .set_property_cache(inline_slot, class, property_slot as usize);
@@ -1330,6 +1364,8 @@ impl Vm {
 
     if class.is_obj_kind(ObjectKind::Class) && method.is_obj_kind(ObjectKind::Closure) {
       class.to_obj().to_class().add_method(name, method);
+      #[cfg(feature = "verif")]
+      self.verif_class_event("method", class.to_obj().to_class(), None, &name, -1, Some(method));
     } else {
       self.internal_error("Invalid Stack for op_method.");
     }
@@ -1346,6 +1382,8 @@ impl Vm {
 
     if_let_obj!(ObjectKind::Class(mut class) = (class) {
       class.add_field(name);
+      #[cfg(feature = "verif")]
+      self.verif_class_event("field", class, None, &name, class.get_field_index(&name).map(|i| i as i64).unwrap_or(-1), None);
     } else {
       self.internal_error("Invalid Stack for op_method.");
     });
